@@ -49,12 +49,67 @@ fn dump_commands() {
     }
 }
 
+/// K1 for the CnC file descriptor (C10, Model/CncLayout.v): the public constants and, because `MetaDataDefn` is
+/// private, the position and width of every meta-data field found by probing: a 256-byte file that is zero
+/// except for one byte is mapped and every public reader of `cnc_file_descriptor` is asked what it sees.
+fn dump_cnc() {
+    use aeron_rs::cnc_file_descriptor as cnc;
+    use aeron_rs::utils::memory_mapped_file::MemoryMappedFile;
+    p!("CNC_VERSION", cnc::CNC_VERSION);
+    p!("CNC_META_DATA_LENGTH", *cnc::META_DATA_LENGTH);
+    let path = std::env::temp_dir().join(format!("vconsts-cnc-{}.dat", std::process::id()));
+    let names = ["VERSION", "TO_DRIVER_LEN", "TO_CLIENTS_LEN", "COUNTER_METADATA_LEN", "COUNTER_VALUES_LEN", "ERROR_LOG_LEN",
+                 "CLIENT_LIVENESS_TIMEOUT", "START_TIMESTAMP", "PID"];
+    let mut hits: Vec<Vec<usize>> = vec![Vec::new(); names.len()];
+    for pos in 0..128usize {
+        let mut bytes = vec![0u8; 256];
+        bytes[pos] = 1;
+        std::fs::write(&path, &bytes).expect("write probe file");
+        let f = MemoryMappedFile::map_existing(path.to_str().unwrap().to_string(), false).expect("map probe file");
+        let seen: [i64; 9] = [
+            cnc::cnc_version_volatile(&f) as i64,
+            cnc::create_to_driver_buffer(&f).capacity() as i64,
+            cnc::create_to_clients_buffer(&f).capacity() as i64,
+            cnc::create_counter_metadata_buffer(&f).capacity() as i64,
+            cnc::create_counter_values_buffer(&f).capacity() as i64,
+            cnc::create_error_log_buffer(&f).capacity() as i64,
+            cnc::client_liveness_timeout(&f),
+            cnc::start_timestamp(&f),
+            cnc::pid(&f),
+        ];
+        for (i, v) in seen.iter().enumerate() {
+            // little endian: byte k of a field contributes 1 << 8k
+            if *v != 0 {
+                hits[i].push(pos);
+                if *v != 1i64 << (8 * (pos - hits[i][0])) {
+                    hits[i].push(usize::MAX); // not a plain little-endian integer field: makes the width check fail
+                }
+            }
+        }
+    }
+    let _ = std::fs::remove_file(&path);
+    let mut end = 0usize;
+    for (i, n) in names.iter().enumerate() {
+        let h = &hits[i];
+        let contiguous = !h.is_empty() && h.iter().enumerate().all(|(k, p)| *p == h[0] + k);
+        p!(format!("CNC_OFF_{}", n), if contiguous { h[0] as i64 } else { -1 });
+        p!(format!("CNC_SZ_{}", n), if contiguous { h.len() as i64 } else { -1 });
+        if contiguous {
+            end = end.max(h[0] + h.len());
+        }
+    }
+    p!("CNC_META_DATA_FIELDS_END", end);
+}
+
 fn main() {
     if std::env::args().any(|a| a == "--commands") {
         dump_commands();
         return;
     }
     p!("CACHE_LINE_LENGTH", aeron_rs::utils::misc::CACHE_LINE_LENGTH);
+    p!("I32_SIZE", aeron_rs::utils::types::I32_SIZE);
+    p!("I64_SIZE", aeron_rs::utils::types::I64_SIZE);
+    dump_cnc();
     // log buffer descriptor
     p!("TERM_MIN_LENGTH", lbd::TERM_MIN_LENGTH);
     p!("TERM_MAX_LENGTH", lbd::TERM_MAX_LENGTH);
